@@ -3,6 +3,12 @@ replay files into known_findings.json after they have been triaged by hand."""
 import glob, json, sys
 prop = sys.argv[1]
 what = {
+ "D1": "levels are integers: two applicable declared types that are unrelated (neither a subclass of the other) at different depths compare as ordered, so a method wins although the documented rule says Ambiguous (typemap.py Candidate.dominates / sort_key)",
+ "D8": "the generated entry point's early exit for an omitted optional positional truncates the lookup key and the forwarded arguments: keyword arguments are dropped / another method runs / the call is rejected (recode.py generate_dispatch L149-160)",
+ "D9": "a call with zero arguments bypasses resolution: MultiTypeMap.empty is the last registered zero-parameter entry whatever the priorities, and methods whose parameters are all optional are ignored (typemap.py L213-214, L377-382)",
+ "D18": "call_next with a key for which the current method sits below a tied rank raises that rank's ambiguity instead of resolving among the methods below the current one (typemap.py __missing__ L364-366)",
+ "D21": "tiebreaks are compared across different signatures: a negative tiebreak left behind by unregister (or carried by a replaced signature) decides between methods of different signatures where a fresh function is ambiguous (core.py _set / unregister, typemap.py dominates)",
+ "D24": "call_next / f.next with zero arguments raises a raw KeyError(()) instead of the 'No method' TypeError (typemap.py __missing__ L364-367: self.all[()] is never set)",
  "D3": "typeorder is not mirror-symmetric when two effective __type_order__ hooks of different design face each other ({pair}): each hook answers from its own side only (types.py Union/Intersection.__type_order__, Exactly handler, dependent.py DependentType.__type_order__)",
  "D22": "two evaluations of Exactly[A] are unequal objects (SingleFunctionHandler has identity equality) and compare MORE in both directions",
  "D17": "subclasscheck is not transitive through {pair}: B <= A <= T but not B <= T; inherent in the documented meaning of the constructor",
